@@ -99,6 +99,21 @@ C08 = [
      "intros. unfold Glue.I_overflowing_pow, I_overflowing_pow. rewrite land1_odd1.\n  destruct (U_overflowing_pow w (I_unsigned_abs w a) k) as [u o].\n  destruct (is_negative w a && Z.odd k); reflexivity."),
 ]
 
+C04 = [(S + "_" + f, S + "_" + m, None) for S in "UI" for f, m in
+       [("Add_add", "add"), ("Mul_mul", "mul"), ("Sub_sub", "sub")]] + [
+    ("U_Not_ref_not", "bitnot w a", None), ("I_Not_ref_not", "bitnot w a", None),
+    # Shl<ExpType> / Shr<ExpType>: the run tables' expression (amount type u32 = ExpType: no conversion)
+    ("U_Shl_ExpType_shl", "Ops.U_Shl_prim dbg w Ops.AU32 a k", None), ("U_Shr_ExpType_shr", "Ops.U_Shr_prim dbg w Ops.AU32 a k", None),
+    ("I_Shl_ExpType_shl", "Ops.I_Shl_prim dbg w Ops.AU32 a k", None), ("I_Shr_ExpType_shr", "Ops.I_Shr_prim dbg w Ops.AU32 a k", None),
+    ("U_BitAnd_bitand", "bitand a b", None), ("U_BitOr_bitor", "bitor a b", None), ("U_BitXor_bitxor", "bitxor a b", None),
+    ("U_Div_div", "U_div", None), ("U_Rem_rem", "U_rem", None), ("U_Not_not", "bitnot w a", None),
+    # Div<Digit> / Rem<Digit>: div_rem_digit(rhs).0 / .1, a zero digit panics (vocabulary entry div_rem_digit of the translator)
+    ("U_Div_digit_div", "Ops.U_Div_digit w a k", None), ("U_Rem_digit_rem", "Ops.U_Rem_digit w a k", None),
+    ("I_Neg_neg", "I_neg", None), ("I_Neg_ref_neg", "I_neg", None),
+    ("I_BitAnd_bitand", "bitand a b", None), ("I_BitOr_bitor", "bitor a b", None), ("I_BitXor_bitxor", "bitxor a b", None),
+    ("I_Div_div", "I_div", None), ("I_Rem_rem", "I_rem", None), ("I_Not_not", "bitnot w a", None),
+]
+
 C08_PRELUDE = """
 (* `pow & 1 == 0` / `pow & 1 == 1` (bint checked_pow, overflowing_pow) are the model's Z.even / Z.odd *)
 Lemma land1_even e : (Z.land e 1 =? 0) = Z.even e.
@@ -115,6 +130,9 @@ SPEC = {
     "C02": ("mul2", "unchecked_mul of src/int/unchecked.rs", False, "", C02),
     "C03": ("div2", "div_euclid, rem_euclid, div_floor, div_ceil, next_multiple_of, checked_next_multiple_of; bint div_rem_unchecked, "
             "overflowing_div, overflowing_div_euclid, overflowing_rem_euclid; the inherent div / rem of const_trait_fillers.rs", False, "", C03),
+    "C04": ("ops", "the operator trait impls of src/int/ops.rs (impls!), src/buint/ops.rs, src/bint/ops.rs that forward to the inherent "
+            "methods: Add Sub Mul Div Rem Neg Not BitAnd BitOr BitXor Shl<ExpType> Shr<ExpType>, Div / Rem by a digit",
+            True, "From Bnum.Model Require Ops.", C04),
     "C05": ("rotate", "rotate_left/right, unbounded_shl/shr of buint/mod.rs and bint/mod.rs; unchecked_shl / unchecked_shr", False, "", C05),
     "C06": ("bits", "bits, bit, the bit counts of BInt, swap_bytes / reverse_bits of BInt, is_power_of_two, (checked_)next_power_of_two, "
             "is_zero / is_one, cast_signed / cast_unsigned, BInt bitand / bitor / bitxor / not", True, "", C06),
